@@ -79,8 +79,29 @@ pub fn thread_cpu_us() -> u128 {
     (ts.tv_sec as u128) * 1_000_000 + (ts.tv_nsec as u128) / 1000
 }
 
+/// Panic message → signature fragment: digit runs become `N` (indices/offsets vary per input, the
+/// call site does not), other punctuation becomes `-`.
 fn sanitize(msg: &str) -> String {
-    msg.chars().map(|c| if c.is_ascii_alphanumeric() { c } else { '-' }).take(48).collect::<String>().trim_matches('-').to_string()
+    let mut out = String::new();
+    let mut in_digits = false;
+    for c in msg.chars() {
+        if c.is_ascii_digit() {
+            if !in_digits {
+                out.push('N');
+            }
+            in_digits = true;
+        } else {
+            in_digits = false;
+            out.push(if c.is_ascii_alphabetic() { c } else { '-' });
+        }
+    }
+    let mut squeezed = String::new();
+    for c in out.chars() {
+        if !(c == '-' && squeezed.ends_with('-')) {
+            squeezed.push(c);
+        }
+    }
+    squeezed.chars().take(56).collect::<String>().trim_matches('-').to_string()
 }
 
 /// One stable signature per root cause.
@@ -610,6 +631,23 @@ fn run_child(family: &str, lo: usize, hi: usize, thorough: bool, targets: &[Targ
         let (i, ti, len, running) = (p[0] as usize, p[1] as usize, p[2] as usize, p[3] == 1);
         let death = Death { class: "hang", detail: format!("{why} (input #{i}); process group killed") };
         *st.deaths.entry("hang".into()).or_default() += 1;
+        // inputs the killed worker had completed since its last flush (counters live in the shared cells)
+        if p[C_BVALID] == 1 {
+            let done = p[C_OK] + p[C_ERR] + p[C_PANICS];
+            st.ok += p[C_OK];
+            st.err += p[C_ERR];
+            st.panics += p[C_PANICS];
+            st.inputs += done;
+            st.max_peak = st.max_peak.max(p[C_MAXPEAK] as usize);
+            let last = if running { i.saturating_sub(1) } else { i };
+            if done > 0 {
+                for k in (p[C_BFIRST] as usize)..=last {
+                    let mut key = family.as_bytes().to_vec();
+                    key.extend_from_slice(&(k as u64).to_le_bytes());
+                    st.keys.push(Report::key(&key));
+                }
+            }
+        }
         if running {
             st.inputs += 1;
             let (tname, tgroup) = tinfo(targets, ti);
